@@ -28,7 +28,7 @@ for state in ("head", "patched"):
     res[state] = (r.returncode, (r.stdout.strip().split("\n") or [""])[-1][:200])
     if state == "patched":
         env = dict(os.environ, VERIF_REPO=wt)
-        c = subprocess.run(check, capture_output=True, text=True, env=env, cwd="/verif")
+        c = subprocess.run(check, capture_output=True, text=True, env=env, cwd=os.environ.get("SEED_VERIF", "/verif"))
         res["check_rc"] = c.returncode
         res["check_lines"] = [l[:300] for l in (c.stdout + c.stderr).split("\n") if "VIOLATION" in l or l.strip().startswith("->") or "KNOWN-FINDING" in l][:8]
 sh(["git", "-C", wt, "checkout", "-q", "--", "."])
